@@ -407,6 +407,33 @@ macro_rules! family {
                 t!("Mat4::from_rotation_translation(non-unit)", $M4::from_rotation_translation(badq, v));
                 t!("Quat::from_mat3(scaled axes)", $Q::from_mat3(&($M3::from_quat(q) * k)));
                 t!("Mat3::to_euler(scaled axes)", ($M3::from_quat(q) * k).to_euler(EulerRot::XYZ));
+                // exactly one axis violates the normalised-axis precondition (each axis in turn)
+                {
+                    let r3 = $M3::from_quat(q);
+                    let mx = $M3::from_cols(r3.x_axis * k, r3.y_axis, r3.z_axis);
+                    let my = $M3::from_cols(r3.x_axis, r3.y_axis * k, r3.z_axis);
+                    let mz = $M3::from_cols(r3.x_axis, r3.y_axis, r3.z_axis * k);
+                    t!("Mat3::to_euler(x axis not unit)", mx.to_euler(EulerRot::ZYX));
+                    t!("Mat3::to_euler(y axis not unit)", my.to_euler(EulerRot::ZYX));
+                    t!("Mat3::to_euler(z axis not unit)", mz.to_euler(EulerRot::ZYX));
+                    t!("Quat::from_mat3(x axis not unit)", $Q::from_mat3(&mx));
+                    t!("Quat::from_mat3(y axis not unit)", $Q::from_mat3(&my));
+                    t!("Quat::from_mat3(z axis not unit)", $Q::from_mat3(&mz));
+                    let m4 = |m: $M3| $M4::from_mat3(m);
+                    t!("Mat4::to_euler(x axis not unit)", m4(mx).to_euler(EulerRot::XYZ));
+                    t!("Mat4::to_euler(y axis not unit)", m4(my).to_euler(EulerRot::XYZ));
+                    t!("Mat4::to_euler(z axis not unit)", m4(mz).to_euler(EulerRot::XYZ));
+                    t!("Quat::from_mat4(x axis not unit)", $Q::from_mat4(&m4(mx)));
+                    t!("Quat::from_mat4(y axis not unit)", $Q::from_mat4(&m4(my)));
+                    t!("Quat::from_mat4(z axis not unit)", $Q::from_mat4(&m4(mz)));
+                    let a3 = |m: $M3| $A3::from_mat3(m);
+                    t!("Quat::from_affine3(x axis not unit)", $Q::from_affine3(&a3(mx)));
+                    t!("Quat::from_affine3(y axis not unit)", $Q::from_affine3(&a3(my)));
+                    t!("Quat::from_affine3(z axis not unit)", $Q::from_affine3(&a3(mz)));
+                    if $f32only {
+                        out.extend(f32only_invalid(q.to_array().map(|x| x as f32), k as f32));
+                    }
+                }
                 t!("Mat4::to_scale_rotation_translation(zero scale)", $M4::from_scale_rotation_translation($V3::new(0.0, 1.0, 2.0), q, v).to_scale_rotation_translation());
                 t!("Mat4::inverse(singular)", $M4::from_scale_rotation_translation($V3::new(0.0, 1.0, 2.0), q, v).inverse());
                 t!("Mat3::inverse(singular)", $M3::from_cols(u, u, v).inverse());
@@ -521,6 +548,37 @@ fn f32only_clamps(c: &mut Cur, obs: &mut Vec<u64>) {
     put(v.reflect(n));
     put(n.refract(n.any_orthonormal_vector(), 1.3));
     put(n.any_orthonormal_vector());
+}
+
+/// Mat3A has its own to_euler / from_mat3a code in every backend: one non-unit axis at a time
+#[allow(dead_code)]
+fn f32only_invalid(q: [f32; 4], k: f32) -> Vec<(&'static str, bool)> {
+    let q = Quat::from_xyzw(q[0], q[1], q[2], q[3]);
+    let r = Mat3A::from_quat(q);
+    let mx = Mat3A::from_cols(r.x_axis * k, r.y_axis, r.z_axis);
+    let my = Mat3A::from_cols(r.x_axis, r.y_axis * k, r.z_axis);
+    let mz = Mat3A::from_cols(r.x_axis, r.y_axis, r.z_axis * k);
+    let mut out: Vec<(&'static str, bool)> = vec![];
+    macro_rules! t {
+        ($n:expr, $e:expr) => {
+            out.push(($n, vcore::catch(|| { let _ = $e; }).is_err()));
+        };
+    }
+    t!("Mat3A::to_euler(x axis not unit)", mx.to_euler(EulerRot::YXZ));
+    t!("Mat3A::to_euler(y axis not unit)", my.to_euler(EulerRot::YXZ));
+    t!("Mat3A::to_euler(z axis not unit)", mz.to_euler(EulerRot::YXZ));
+    t!("Quat::from_mat3a(x axis not unit)", Quat::from_mat3a(&mx));
+    t!("Quat::from_mat3a(y axis not unit)", Quat::from_mat3a(&my));
+    t!("Quat::from_mat3a(z axis not unit)", Quat::from_mat3a(&mz));
+    let n = Vec3A::new(0.6, 0.0, 0.8);
+    t!("Vec3A::project_onto_normalized(non-unit)", Vec3A::ONE.project_onto_normalized(n * k));
+    t!("Vec3A::reflect(non-unit normal)", Vec3A::ONE.reflect(n * k));
+    t!("Vec3A::refract(non-unit self)", (n * k).refract(n, 1.3));
+    t!("Vec3A::any_orthonormal_vector(non-unit)", (n * k).any_orthonormal_vector());
+    t!("Vec3A::any_orthonormal_pair(non-unit)", (n * k).any_orthonormal_pair());
+    t!("Vec3A::clamp(min > max)", n.clamp(Vec3A::splat(1.0), Vec3A::splat(-1.0)));
+    t!("Vec3A::clamp_length(min > max)", n.clamp_length(2.0, 1.0));
+    out
 }
 
 #[allow(dead_code)]
